@@ -601,6 +601,15 @@ class Builder:
                             'logical': 'logical_pos', 'comments': 'comments'}[n], v)
         elif op == 'EntJoin':
             (self.ent(a['e']).groups if a['what'] == 'group' else self.ent(a['e']).visgroup_ids).add(a['id'])
+        elif op == 'EntJoinSeq':
+            # several memberships, added one by one in the given order (the sets' iteration order depends on it
+            # when the IDs collide in the hash table: k, k+8, k+16, ...)
+            tgt = self.ent(a['e']).groups if a['what'] == 'group' else self.ent(a['e']).visgroup_ids
+            for x in a['ids']:
+                tgt.add(x)
+        elif op == 'SolidJoinSeq':
+            for x in a['ids']:
+                self.ent(a['e']).solids[a['s'] - 1].visgroup_ids.add(x)
         elif op == 'AddPrism':
             pr = vmf.make_prism(vec_of(a['p1']), vec_of(a['p2']), a['mat'], a['points'])
             if a['e'] == 0:
@@ -787,6 +796,14 @@ def _has_tinyneg(obj) -> bool:
     return False
 
 
+def id_lists(vmf: VMF) -> dict:
+    """object IDs per kind in document order (the order of EntsOf / SolidsOf / SidesOf / FlatVis / groups)"""
+    ents = [vmf.spawn] + list(vmf.entities)
+    solids = [s for e in ents for s in e.solids]
+    return {'ent': [e.id for e in ents], 'solid': [s.id for s in solids], 'side': [f.id for s in solids for f in s.sides],
+            'vis': [v['id'] for v in _flat_vis(vmf)], 'group': [g.id for g in vmf.groups.values()]}
+
+
 def export_parse(vmf: VMF, opts: dict, out, src: str, hist, extra_sig: dict | None = None, tid: int = 0) -> dict:
     doc = project(vmf)
     text1 = vmf.export(inc_version=opts['inc'], minimal=opts['minimal'], disp_multiblend=opts['mb'])
@@ -806,7 +823,7 @@ def export_parse(vmf: VMF, opts: dict, out, src: str, hist, extra_sig: dict | No
     stats = {'xp': 0, 'parse_fail': 0, 'patched': 0}
 
     def attempt(text: str, sig: dict) -> str:
-        rec = {'k': 'xp', 'tid': tid, 'patched': bool(sig['patched']), 'opts': opts, 'doc': doc, 'toks1': toks1, 'tokfail': tokfail, 'sig': sig, 'fv': fv, 'hist': hist}
+        rec = {'k': 'xp', 'tid': tid, 'c3': {'status': 'none'}, 'patched': bool(sig['patched']), 'opts': opts, 'doc': doc, 'toks1': toks1, 'tokfail': tokfail, 'sig': sig, 'fv': fv, 'hist': hist}
         err = ''
         try:
             vmf2 = VMF.parse(Keyvalues.parse(text), preserve_ids=opts['preserve'])
@@ -821,6 +838,17 @@ def export_parse(vmf: VMF, opts: dict, out, src: str, hist, extra_sig: dict | No
             except ValueError:
                 toks2 = []
             rec.update(status='ok', doc2=doc2, toks2=toks2)
+            # third cycle: the second text re-read and exported once more must be the second text
+            if not sig['patched']:
+                c3 = {'status': 'ok', 'idl2': id_lists(vmf2), 'idl3': {}, 'toks3': []}
+                try:
+                    vmf3 = VMF.parse(Keyvalues.parse(text2), preserve_ids=opts['preserve'])
+                    c3['idl3'] = id_lists(vmf3)
+                    c3['toks3'] = tokens(vmf3.export(inc_version=False, minimal=opts['minimal'], disp_multiblend=opts['mb']))
+                except Exception as exc:   # noqa: BLE001
+                    c3['status'] = 'error'
+                    sig['err3'] = err_class(exc)
+                rec['c3'] = c3
         sig['err'] = err
         out.write(rec)
         stats['xp'] += 1
@@ -1101,6 +1129,17 @@ def random_doc(rng: random.Random, out, stats: dict, scale: int, special: str = 
                 if n == 'hidden' and v and special != 'hidden_first' and any(not x.hidden for x in vmf.entities[e:]):
                     continue    # a hidden entity before a visible one: dedicated case (known reordering defect)
                 do({'op': 'SetEntAttr', 'e': e, 'name': n, 'val': v})
+        elif c < 0.53:
+            # memberships whose IDs collide in a small hash table (equal mod 8: k, k+8, k+16, k+32, k+64) together
+            # with small ones, 3-6 of them, in a random insertion order; entities (groups, visgroups) and world brushes
+            k = rng.randint(1, 40)
+            ids = rng.sample([k, k + 8, k + 16, k + 32, k + 64, k + 128], rng.randint(2, 5)) + rng.sample([1, 2, 3, 4, 5], rng.randint(1, 2))
+            ids = list(dict.fromkeys(ids))
+            rng.shuffle(ids)
+            if e and rng.random() < 0.7:
+                do({'op': 'EntJoinSeq', 'e': e, 'what': rng.choice(['group', 'vis']), 'ids': ids})
+            elif vmf.brushes:
+                do({'op': 'SolidJoinSeq', 'e': 0, 's': rng.randrange(len(vmf.brushes)) + 1, 'ids': ids})
         elif c < 0.55:
             if e and rng.random() < 0.5 and vmf.groups:
                 do({'op': 'EntJoin', 'e': e, 'what': 'group', 'id': rng.choice(list(vmf.groups))})
@@ -1390,9 +1429,10 @@ def mode_corrupt(in_paths: list, out, stats: dict) -> None:
             q['sig'] = {'kind': 'corrupt', 'action': 'ExportParse', 'cls': 'doc2:' + c}
             out.write(q)
         if n_base == 1 and not r['patched']:
-            for which, how in (('toks2', 'drop'), ('toks2', 'value'), ('toks1', 'drop'), ('toks1', 'label')):
+            for which, how in (('toks2', 'drop'), ('toks2', 'value'), ('toks1', 'drop'), ('toks1', 'label'),
+                               ('toks3', 'drop'), ('toks3', 'value')):
                 q = copy.deepcopy(r)
-                t = q[which]
+                t = q['c3']['toks3'] if which == 'toks3' else q[which]
                 j = next(i for i, x in enumerate(t) if x['t'] == 'kv' and x['ik'] == '' and i > 8)
                 if how == 'drop':
                     del t[j]
